@@ -143,7 +143,8 @@ def tokenResult (env : Env Ext C Pm) (s : St Ext C Pm) (com : Committee Pm) (pid
   let total := Dec.ofInt (sumBal env s.ext com.denom vs)
   let possible := Dec.ofInt (env.supply s.ext com.denom)
   if Dec.le (com.quorum.mul possible) total then
-    Dec.le ((yes.add no).mul com.threshold) yes
+    -- since the fix "committee token tally without any yes or no vote must not pass": `nonAbstainVotes.IsPositive() &&`
+    decide (0 < (yes.add no).m) && Dec.le ((yes.add no).mul com.threshold) yes
   else false
 
 /-- `GetProposalResult` -/
